@@ -91,9 +91,8 @@ package rtpbuffer
 //@
 //@ func (*PacketFactoryCopy).NewPacket
 //@   requires hdr: header != nil
-//@   # the payload pool only ever holds the buffers made by NewPacketFactoryCopy's New function (maxPayloadLen+2 bytes), each referenced by nothing else
-//@   assume_after "m.payloadPool.Get" pool_buffers: typeis(result, "*[]byte") ==> len(deref(as(result, "*[]byte"))) == 1462 && cap(deref(as(result, "*[]byte"))) == 1462
-//@        && fresh(deref(as(result, "*[]byte"))) && !sameblock(deref(as(result, "*[]byte")), payload)
+//@   # the payload pool is the one NewPacketFactoryCopy builds (the only assignment to the field; resolved by the verifier):
+//@   # Get returns what its New function makes (a private 1462-byte buffer) with arbitrary recycled contents
 //@   modifies *
 //@   ensures too_big: len(payload) > 1460 ==> result0 == nil && result1 != nil
 //@   ensures ok_or_error: (result0 == nil) <==> (result1 != nil)
